@@ -21,6 +21,7 @@ THEOREMS = [
     ("EG.props.C08", "C08_checker_accepts_spec"),
     ("EG.props.C08", "C08_checker_accepts_model"),
     ("EG.props.C08", "C08_wrapper_one_record_per_call"),
+    ("EG.props.C08", "C08_wrapper_context_independent"),
     ("EG.props.C08", "C08_short_circuit_is_503"),
     ("EG.props.C08", "C08_short_circuit_every_shape"),
     ("EG.props.C08", "C08_nonvacuous"),
@@ -85,6 +86,7 @@ def _pol(p):
 
 
 _HOUT = {0: "HOk", 1: "HErr", 2: "HPanic"}
+_CX = {0: "CLive", 1: "CCancelledBefore", 2: "CCancelledDuring", 3: "CDeadline"}
 
 
 def _backend(b):
@@ -116,14 +118,14 @@ def encode(c):
         calls, now = [], i["t0"]
         for cl in i["calls"] or []:
             now += cl["dt"]
-            calls.append(T(Z(now), _HOUT[cl["h"]]))
+            calls.append(T(Z(now), _HOUT[cl["h"]], _CX[cl.get("cx", 0)]))
         return Rec(w_pol=_pol(i["pol"]), w_t0=Z(i["t0"]), w_calls=L(calls),
                    w_obs=L([T(*[Z(x) for x in s]) for s in (o["calls"] or [])]))
     if g == "pool":
         reqs, now = [], i["t0"]
         for rq in i["reqs"] or []:
             now += rq["dt"]
-            reqs.append(T(Z(now), _backend(rq), B(rq.get("body", 0) >= 2)))
+            reqs.append(T(Z(now), _backend(rq), B(rq.get("body", 0) >= 2), _CX[rq.get("cx", 0)]))
         return Rec(q_pol=_pol(i["pol"]), q_t0=Z(i["t0"]), q_retry=Z(i.get("retry", 0)), q_reqs=L(reqs),
                    q_obs=L([T(Z(s["status"]), S(s["result"]), Z(s["contacted"]), Z(s["state"]), Z(s["id"]), Z(s["total"]))
                             for s in (o["reqs"] or [])]))
